@@ -429,3 +429,14 @@ known("KF-C08-ASAN-01", "C08", "process", r"asan.*", r"asan:(use-after-poison|un
 json.dump({"comment": "generated by tools/gen_known.py; never written at check time", "findings": F},
           open(os.path.join(os.path.dirname(os.path.abspath(__file__)), "..", "known_findings.json"), "w"), indent=1, ensure_ascii=False)
 print(len(F), "entries")
+
+# lint: every pattern compiles and none contains a doubled backslash (a classic slip when the
+# entry text is pasted through several quoting layers)
+for _e in F:
+    if _e["status"] != "known":
+        continue
+    for _f, _v in _e["match"].items():
+        if _v is None:
+            continue
+        re.compile(_v)
+        assert "\\\\" not in _v, "doubled backslash in %s.%s: %s" % (_e["id"], _f, _v)
